@@ -208,7 +208,9 @@ Definition mc_value (r : request) : res str :=
 (* morsel.samesite = samesite -> serialize_samesite *)
 Definition mc_samesite (validate : bool) (r : request) : res (option str) :=
   match r_samesite r with
-  | Some s => if validate && negb (samesite_ok s) then Raise ValueError else Ok (Some s)
+  | Some s => if validate then (if samesite_ok s then Ok (Some s) else Raise ValueError)
+              else (* validation off: the value is copied verbatim, so it must at least be a token *)
+                   if forallb is_token s then Ok (Some s) else Raise ValueError
   | None => Ok None
   end.
 Definition mc_morsel (r : request) (vbytes : str) (ss : option str) : morsel :=
